@@ -88,7 +88,7 @@ RadioTap::RadioTap(const uint8_t* buffer, uint32_t total_sz) {
     }
 
     radiotap_size -= sizeof(header_);
-    if (TINS_UNLIKELY(radiotap_size + sizeof(uint32_t) > input.size())) {
+    if (TINS_UNLIKELY(radiotap_size > input.size())) {
         throw malformed_packet();
     }
 
